@@ -278,6 +278,18 @@ static inline void k_markIdle(bool& isWorking) {
 #ifndef VF_ATOMIC_PROBE
 #define VF_ATOMIC_PROBE 1
 #endif
+// VF_COARSE_SLEEP=1: the REAL enterSleep / exitSleep (two RMWs each: sleepMask, totalSleeping_) are kept
+// out of line (spec: no_inline) and therefore execute as one step each; 0: inlined, every RMW a switch point
+#ifndef VF_COARSE_SLEEP
+#define VF_COARSE_SLEEP 0
+#endif
+#if VF_COARSE_SLEEP
+VF_NOINLINE static void k_enterSleep(int32_t idx) { WS->enterSleep(idx); }  // REAL
+VF_NOINLINE static void k_exitSleep(int32_t idx) { WS->exitSleep(idx); }    // REAL
+#else
+static inline void k_enterSleep(int32_t idx) { WS->enterSleep(idx); }  // REAL
+static inline void k_exitSleep(int32_t idx) { WS->exitSleep(idx); }    // REAL
+#endif
 #if VF_ATOMIC_PROBE
 // Coarse work finding (default): ONE atomic ghost step performs the whole probe sequence of
 // tryFindAndExecuteWork (+ the deferred steal-ring check of the loop): it looks exactly where the real
@@ -349,20 +361,20 @@ static inline void k_worker_loop(int32_t ringIndex) {
       { VfAtomic a; vf_assume(!g_inflight); }
 #endif
       if (kUseWakeSleep) {
-        ws->enterSleep(ringIndex);  // REAL
+        k_enterSleep(ringIndex);  // REAL
       }
     }
     resumeAtPark = false;
     if (kUseWakeSleep) {
       if (!k_running(ringIndex)) {
-        ws->exitSleep(ringIndex);  // REAL
+        k_exitSleep(ringIndex);  // REAL
         break;
       }
     }
     const uint32_t preWaitEpoch = epoch;
     epoch = k_waitOnThread(ringIndex, epoch);
     if (kUseWakeSleep) {
-      ws->exitSleep(ringIndex);  // REAL
+      k_exitSleep(ringIndex);  // REAL
     }
 #if VF_LIVE_CENTRAL
     if (epoch == preWaitEpoch) {
